@@ -13,6 +13,8 @@ CFG = dict(
               "rs-local: the single path of destinations(TableQuery::RsLocal(peer)) is not beaten by any other RS client's unfiltered, next-hop-valid path (ties legal)",
               "no panic in any table operation (debug: overflow checks on)"],
     assumptions=["MAC-mobility sequence numbers are >= 1 when present (absent vs. sequence 0 is not fixed by the statement)",
+                 "the MAC Mobility community counts wherever it stands among the extended communities; the sticky flag does not rank; "
+                 "the same community twice = that sequence number; two MAC Mobility communities with different sequence numbers: not judged",
                  "ORIGIN is always present (mandatory attribute); LOCAL_PREF absent = 100",
                  "stale / LLGR-stale marks are only produced through restale / restale_llgr(+drop_no_llgr) as the daemon does, one Source per (session, family)",
                  "ECMP is judged for IPv4 only (the kernel FIB consumer); ListPath showing next-hop-invalid paths unmarked is not judged"],
@@ -29,7 +31,9 @@ CFG = dict(
                    ("tie:follow-up-insert", 15000), ("tie:remove-best", 10000),
                    ("rs-local:judged-with>=2-candidates", 40000),
                    ("tie:disturb:reconnect", 1000), ("reannounce:over-stale-entry", 800), ("reannounce:after-purge", 300),
-                   ("reannounce:same-arc", 600), ("reannounce:equal-content-new-arc", 600)])),
+                   ("reannounce:same-arc", 600), ("reannounce:equal-content-new-arc", 600),
+                   ("decided:mac-mobility:winner-mm-not-first-among-type6", 50000), ("state:evpn-mm-not-first-among-type6", 30000),
+                   ("state:evpn-mm-sticky", 15000), ("state:evpn-mm-community-twice", 10000)])),
     # release shards get their own seeds (seed_offset) so the two profiles do not replay identical inputs
     quick=[e1("all", "c02", "debug", 2, 120), dict(e1("all", "c02", "release", 2, 120), seed_offset=500)],
     thorough=[e1("matrix", "c02", "debug", 2, 200, part="matrix"),
